@@ -1,5 +1,26 @@
-"""Model side of the file-lock checks (FileLock.tla)."""
+"""Model side of the file-lock checks: exhaustive TLC runs of specs/filelock/FileLock.tla."""
+
+ACTIONS = ['Start', 'TLAcquire', 'IncCounter', 'OsOpen', 'OsLock', 'SetFd', 'CloseFail', 'Check', 'Cleanup',
+           'Acquired', 'Leave', 'RelCheck', 'RelDecide', 'OsUnlock', 'OsClose', 'TLRelease', 'RelDone']
+
+PLAN = {
+    'C02': {'quick': [('FL_shared2_re', None), ('FL_own2', None), ('FL_procs2_crash', None),
+                      ('W_contended', 'NeverContended'), ('W_nested', 'NeverNested')],
+            'thorough': [('FL_shared2_re', None), ('FL_own2', None), ('FL_procs2_crash', None), ('FL_mix3_crash', None),
+                         ('FL_three3_crash', None), ('W_contended', 'NeverContended'), ('W_nested', 'NeverNested')]},
+    'C12': {'quick': [('FL_shared2', None), ('FL_live_shared2', None), ('W_nested', 'NeverNested')],
+            'thorough': [('FL_shared2', None), ('FL_shared2_re', None), ('FL_own2', None), ('FL_live_shared2', None),
+                         ('W_nested', 'NeverNested')]},
+    'C13': {'quick': [('FL_procs2_crash', None), ('FL_live_mix3', None), ('W_contended', 'NeverContended')],
+            'thorough': [('FL_procs2_crash', None), ('FL_live_mix3', None), ('FL_mix3_crash', None),
+                         ('FL_three3_crash', None), ('W_contended', 'NeverContended')]},
+}
 
 
 def model_check(ctx):
-    pass
+    for cfg, expect in PLAN[ctx.prop][ctx.tier]:
+        if expect:
+            ctx.mc('filelock', 'MC_FileLock', cfg + '.cfg', expect_violation=expect, timeout=300)
+        else:
+            ctx.mc('filelock', 'MC_FileLock', cfg + '.cfg', timeout=1800,
+                   require_actions=[a for a in ACTIONS if not (a == 'CloseFail' and cfg == 'FL_shared2')])
